@@ -7,7 +7,7 @@ CONSTANTS
   SaltWith <- W_Water
   KShifts <- KS_Q
   SaltKShifts = {0, 4, 7}
-  InitSeq <- I_Few
+  InitSeq <- I_FewZ
   InitPatterns <- IP_Few
   SolidInits <- SI_Few
   GuessShifts = {1}
